@@ -217,3 +217,149 @@ Proof.
   apply in_map_iff. exists (Z.to_nat x). split; [apply Z2Nat.id; unfold is_byte in Hx; lia|].
   apply in_seq. unfold is_byte in Hx. lia.
 Qed.
+
+(* ---------- reads as big-endian integers of the bytes they cover ---------- *)
+Lemma nth_error_skipn {A} (l : list A) : forall i j, nth_error (skipn i l) j = nth_error l (i + j).
+Proof.
+  induction l as [|a l IH]; intros i j.
+  - rewrite skipn_nil. destruct j, i; reflexivity.
+  - destruct i as [|i]; [reflexivity|]. cbn [skipn Nat.add nth_error]. apply IH.
+Qed.
+
+Lemma bytes_at_length b i n : (i + n <= length b)%nat -> length (bytes_at b i n) = n.
+Proof. intros H. unfold bytes_at. rewrite firstn_length, skipn_length. lia. Qed.
+
+Lemma bytes_at_ok b i n : bytes_ok b -> bytes_ok (bytes_at b i n).
+Proof. intros H. apply Forall_firstn, Forall_skipn, H. Qed.
+
+Lemma be_int_bound l : bytes_ok l -> 0 <= be_int l < 2 ^ (8 * Z.of_nat (length l)).
+Proof.
+  induction l as [|x l IH] using rev_ind; intros H; [cbn; lia|].
+  apply Forall_app in H as [Hl Hx]. inversion Hx as [|? ? Hx0 _]; subst.
+  rewrite be_int_snoc, app_length. cbn [length].
+  replace (8 * Z.of_nat (length l + 1)) with (8 * Z.of_nat (length l) + 8) by lia.
+  rewrite Z.pow_add_r by lia. change (2^8) with 256. specialize (IH Hl). unfold is_byte in Hx0. lia.
+Qed.
+
+Lemma get8_be b i : (i + 1 <= length b)%nat -> get8 b i = Some (be_int (bytes_at b i 1)).
+Proof.
+  intros H. unfold get8, bytes_at. rewrite <- (Nat.add_0_r i) at 1. rewrite <- nth_error_skipn.
+  destruct (skipn i b) as [|x t] eqn:E; [apply (f_equal (@length Z)) in E; rewrite skipn_length in E; cbn in E; lia|].
+  cbn [nth_error obind firstn be_int fold_left]. apply f_equal. ring.
+Qed.
+
+Lemma get16_be b i : (i + 2 <= length b)%nat -> get16 b i = Some (be_int (bytes_at b i 2)).
+Proof.
+  intros H. unfold get16, bytes_at.
+  rewrite <- (Nat.add_0_r i) at 1. replace (S i) with (i + 1)%nat by lia. rewrite <- !nth_error_skipn.
+  destruct (skipn i b) as [|x [|y t]] eqn:E;
+    try (apply (f_equal (@length Z)) in E; rewrite skipn_length in E; cbn in E; lia).
+  cbn [nth_error obind firstn be_int fold_left]. apply f_equal. ring.
+Qed.
+
+Lemma get32_be b i : (i + 4 <= length b)%nat -> get32 b i = Some (be_int (bytes_at b i 4)).
+Proof.
+  intros H. unfold get32, bytes_at.
+  replace (S (S (S i))) with (i + 3)%nat by lia. replace (S (S i)) with (i + 2)%nat by lia.
+  replace (S i) with (i + 1)%nat by lia. rewrite <- (Nat.add_0_r i) at 1.
+  rewrite <- !nth_error_skipn.
+  destruct (skipn i b) as [|x [|y [|z [|u t]]]] eqn:E;
+    try (apply (f_equal (@length Z)) in E; rewrite skipn_length in E; cbn in E; lia).
+  cbn [nth_error obind firstn be_int fold_left]. apply f_equal. ring.
+Qed.
+
+Lemma getN_at b i n : (i + n <= length b)%nat -> getN b i n = Some (bytes_at b i n).
+Proof. intros H. unfold getN. destruct (Nat.leb_spec (i + n) (length b)); [reflexivity|lia]. Qed.
+
+(* a byte-aligned run of bytes, read bit by bit *)
+
+Lemma bits_byte b i : bytes_ok b -> (i < length b)%nat -> bits b (8 * i) 8 = nth i b 0.
+Proof.
+  intros Hb Hi. rewrite <- (Nat.add_0_r (8 * i)). rewrite (bits_field b i 1 0 8) by (assumption || lia).
+  change (2 ^ Z.of_nat (8 * 1 - 0 - 8)) with 1. change (2 ^ Z.of_nat 8) with 256. rewrite Z.div_1_r.
+  unfold bytes_at.
+  assert (E : nth i b 0 = nth 0 (skipn i b) 0).
+  { rewrite <- (firstn_skipn i b) at 1. rewrite app_nth2 by (rewrite firstn_length; lia).
+    rewrite firstn_length. replace (i - Nat.min i (length b))%nat with 0%nat by lia. reflexivity. }
+  rewrite E.
+  destruct (skipn i b) as [|x t] eqn:ES; [apply (f_equal (@length Z)) in ES; rewrite skipn_length in ES; cbn in ES; lia|].
+  cbn [firstn be_int fold_left nth].
+  assert (Hx : is_byte x).
+  { assert (Hs : bytes_ok (skipn i b)) by apply Forall_skipn, Hb. rewrite ES in Hs. inversion Hs; assumption. }
+  unfold is_byte in Hx. rewrite Z.mod_small; lia.
+Qed.
+
+Lemma bytes_at_bits b : forall n i, bytes_ok b -> (i + n <= length b)%nat ->
+  bytes_at b i n = map (fun j => bits b (8 * i + 8 * j) 8) (seq 0 n).
+Proof.
+  unfold bytes_at.
+  induction n as [|n IH]; intros i Hb Hl; [reflexivity|].
+  cbn [seq map]. rewrite <- seq_shift, map_map.
+  destruct (skipn i b) as [|x t] eqn:ES; [apply (f_equal (@length Z)) in ES; rewrite skipn_length in ES; cbn in ES; lia|].
+  cbn [firstn]. f_equal.
+  - rewrite Nat.mul_0_r, Nat.add_0_r, bits_byte by (assumption || lia).
+    rewrite <- (firstn_skipn i b) at 1. rewrite app_nth2 by (rewrite firstn_length; lia).
+    rewrite firstn_length, ES. replace (i - Nat.min i (length b))%nat with 0%nat by lia. reflexivity.
+  - assert (Et : t = skipn (S i) b).
+    { replace (S i) with (1 + i)%nat by lia. rewrite <- skipn_skipn, ES. reflexivity. }
+    rewrite Et, (IH (S i) Hb ltac:(lia)). apply map_ext. intros j. f_equal. lia.
+Qed.
+
+(* ---------- writes keep a byte string a byte string ---------- *)
+Lemma upd_ok b i v b' : bytes_ok b -> is_byte v -> upd b i v = Some b' -> bytes_ok b'.
+Proof.
+  intros Hb Hv H. destruct (Nat.lt_ge_cases i (length b)) as [L|L].
+  - rewrite upd_some in H by exact L. assert (E : b' = firstn i b ++ v :: skipn (S i) b) by congruence.
+    subst b'. apply Forall_app. split; [apply Forall_firstn, Hb|].
+    constructor; [exact Hv|apply Forall_skipn, Hb].
+  - rewrite upd_none in H by exact L. discriminate H.
+Qed.
+
+Lemma put8_ok b i v b' : bytes_ok b -> put8 b i v = Some b' -> bytes_ok b'.
+Proof. intros Hb H. exact (upd_ok b i _ b' Hb (w8_byte v) H). Qed.
+
+Lemma put16_ok b i v b' : bytes_ok b -> put16 b i v = Some b' -> bytes_ok b'.
+Proof.
+  intros Hb H. unfold put16 in H.
+  destruct (upd b i (w8 (v / 2 ^ 8))) as [b1|] eqn:E1; [|discriminate H]. cbn [obind] in H.
+  apply (upd_ok b1 (S i) _ b' (upd_ok b i _ b1 Hb (w8_byte _) E1) (w8_byte _) H).
+Qed.
+
+Lemma put32_ok b i v b' : bytes_ok b -> put32 b i v = Some b' -> bytes_ok b'.
+Proof.
+  intros Hb H. unfold put32 in H.
+  destruct (upd b i (w8 (v / 2 ^ 24))) as [b1|] eqn:E1; [|discriminate H]. cbn [obind] in H.
+  destruct (upd b1 (S i) (w8 (v / 2 ^ 16))) as [b2|] eqn:E2; [|discriminate H]. cbn [obind] in H.
+  destruct (upd b2 (S (S i)) (w8 (v / 2 ^ 8))) as [b3|] eqn:E3; [|discriminate H]. cbn [obind] in H.
+  pose proof (upd_ok _ _ _ _ Hb (w8_byte _) E1) as H1.
+  pose proof (upd_ok _ _ _ _ H1 (w8_byte _) E2) as H2.
+  pose proof (upd_ok _ _ _ _ H2 (w8_byte _) E3) as H3.
+  exact (upd_ok _ _ _ _ H3 (w8_byte _) H).
+Qed.
+
+Lemma copy_into_ok b off n src b' : bytes_ok b -> bytes_ok src -> copy_into b off n src = Some b' -> bytes_ok b'.
+Proof.
+  intros Hb Hs H. unfold copy_into, set_range in H.
+  destruct (off + n <=? length b)%nat; [|discriminate H].
+  destruct (off + length (firstn n src) <=? length b)%nat; [|discriminate H].
+  assert (E : b' = firstn off b ++ firstn n src ++ skipn (off + length (firstn n src)) b) by congruence.
+  subst b'. apply Forall_app. split; [apply Forall_firstn, Hb|].
+  apply Forall_app. split; [apply Forall_firstn, Hs|apply Forall_skipn, Hb].
+Qed.
+
+Lemma bytes_okb_ok l : bytes_okb l = true -> bytes_ok l.
+Proof.
+  unfold bytes_okb, bytes_ok. rewrite forallb_forall, Forall_forall. intros H x Hx.
+  specialize (H x Hx). unfold is_byteb in H. unfold is_byte. lia.
+Qed.
+
+(* big-endian re-assembly of what put16 / put32 wrote *)
+Lemma be16_rt v : 0 <= v < 65536 -> w8 (v / 2^8) * 256 + w8 v = v.
+Proof. intros H. unfold w8. change (2^8) with 256. Z.div_mod_to_equations. lia. Qed.
+
+Lemma be32_rt v : 0 <= v < 4294967296 ->
+  ((w8 (v / 2^24) * 256 + w8 (v / 2^16)) * 256 + w8 (v / 2^8)) * 256 + w8 v = v.
+Proof.
+  intros H. unfold w8. change (2^8) with 256. change (2^16) with 65536. change (2^24) with 16777216.
+  Z.div_mod_to_equations. lia.
+Qed.
